@@ -300,7 +300,7 @@ def integration_weight_instance(kind, K, N, wca):
                     patches=patches, definedness=False, crosscheck=False, timeout=30.0, native_n=3)
 
 
-def fit_floor_instance(kind, cov_norm, floor, aeps):
+def fit_floor_instance(kind, cov_norm, floor, aeps, iterations=1):
     """One public fit of a cACG-family trainer: the eigenvalue floor asked for is the one in force, whatever the clipping constant."""
     from pb_bss.distribution import cacgmm, gcacgmm, vmfcacgmm
     F, K, N, D, Ed = 1, 2, 3, 2, 2
@@ -313,6 +313,11 @@ def fit_floor_instance(kind, cov_norm, floor, aeps):
                 'g': B.real('g', (F, K, N), lo=0.0, lo_strict=True, dist=(0.05, 1.0))}
 
     def call(a):
+        if kind == 'cacg':
+            # the stand-alone trainer of the component distribution (no classes: the spectrum has shape (F, D))
+            from pb_bss.distribution import complex_angular_central_gaussian as cacg_
+            m = cacg_.ComplexAngularCentralGaussianTrainer().fit(a['y'], eigenvalue_floor=floor, covariance_norm=cov_norm, iterations=iterations)
+            return {'lam': m.covariance_eigenvalues[:, None, :][:, [0] * K, :]}
         kw = dict(initialization=a['g'], iterations=1, eigenvalue_floor=floor, covariance_norm=cov_norm, affiliation_eps=aeps)
         if kind == 'cacgmm':
             m = cacgmm.CACGMMTrainer().fit(a['y'], **kw)
@@ -339,8 +344,9 @@ def fit_floor_instance(kind, cov_norm, floor, aeps):
                 else:
                     yield 'eigenvalue-at-least-floor-times-largest[%s,%d]' % (i, e), sp.implies(sp.ge(top, 0.0), sp.ge(lam[i + (e,)], top * floor))
 
-    func = {'cacgmm': 'cacgmm:CACGMMTrainer', 'gcacgmm': 'gcacgmm:GCACGMMTrainer', 'vmfcacgmm': 'vmfcacgmm:VMFCACGMMTrainer'}[kind]
-    return Instance('C09', DN + func + '.fit', 'floor-in-force-%s-floor%g-eps%g' % (cov_norm, floor, aeps), make, call, ensures,
+    func = {'cacgmm': 'cacgmm:CACGMMTrainer', 'gcacgmm': 'gcacgmm:GCACGMMTrainer', 'vmfcacgmm': 'vmfcacgmm:VMFCACGMMTrainer',
+            'cacg': 'complex_angular_central_gaussian:ComplexAngularCentralGaussianTrainer'}[kind]
+    return Instance('C09', DN + func + '.fit', 'floor-in-force-%s-floor%g-eps%g%s' % (cov_norm, floor, aeps, '' if iterations == 1 else '-it%d' % iterations), make, call, ensures,
                     patches=patches, definedness=False, crosscheck=False, timeout=30.0, native_n=3)
 
 
@@ -686,6 +692,10 @@ def instances(tier):
         out.append(fit_floor_instance(kind, 'eigenvalue', 1e-3, 1e-10))
         out.append(fit_floor_instance(kind, 'trace', 1e-6, 1e-3))
     out.append(fit_floor_instance('cacgmm', False, 1e-3, 1e-8))
+    # the stand-alone cACG trainer: the floor asked for is in force after one fixed-point step and after two
+    out.append(fit_floor_instance('cacg', 'eigenvalue', 1e-2, 0.0))
+    out.append(fit_floor_instance('cacg', 'trace', 1e-3, 0.0))
+    out.append(fit_floor_instance('cacg', 'eigenvalue', 0.5, 0.0, iterations=2))
     out.append(gaussian_constructor_instance())
     out.append(degenerate_bounded_instance())
     return out
